@@ -1393,7 +1393,14 @@ func (c *Conn) readLine() (string, error) {
 		}
 	}
 
+	c.lineLimitReader.takeReadErr()
 	line, err := c.text.ReadLine()
+	if rerr := c.lineLimitReader.takeReadErr(); err == nil && rerr != nil {
+		// The connection ended or timed out before the line did: the
+		// buffered reader hands out the part it has got and drops the error.
+		// What was received is not a command.
+		return "", rerr
+	}
 	if err == nil && c.lineLimitReader.exceeded() {
 		// The buffered reader hands out the part of the line it had already
 		// collected and drops the limiter's error.
